@@ -129,8 +129,20 @@ def has_empty_fiber(dims, cont):
 # ---------------------------------------------------------------------------
 # the library call (as in codec/swoop_util.py)
 
-def encode(rank_ids, nest, desc, shape):
+def touch_tensor(t, touch):
+    """make the tensor non-canonical through the public API: a full-length
+    point stores an explicit 0 leaf (getPayloadRef without a write, or writing
+    0), a shorter prefix stores an explicitly empty sub-fiber.  Content is
+    unchanged."""
+    for tc in touch:
+        ref = t.getPayloadRef(*tc["p"])
+        if tc.get("w") and len(tc["p"]) == len(t.getRankIds()):
+            ref <<= 0
+
+
+def encode(rank_ids, nest, desc, shape, touch=()):
     t = Tensor.fromUncompressed(list(rank_ids), nest)
+    touch_tensor(t, touch)
     codec = Codec(tuple(desc), [True] * len(desc))
     output = codec.get_output_dict(list(rank_ids))
     output_tensor = [list() for _ in range(len(desc) + 1)]
@@ -306,6 +318,7 @@ class StepBudgetExceeded(Exception):
 
 
 STEP_BUDGET = 400000
+NESTED_BUDGET = 2000000
 _MON = getattr(sys, "monitoring", None)
 _TOOL = 4
 _count = [0, 0]          # [lines executed for the current fiber, budget (0 = not counting)]
@@ -470,11 +483,67 @@ def pick_bases(n, coords):
 
 
 # ---------------------------------------------------------------------------
+# interleaved walk of the whole encoded tensor: the scan of a parent is still
+# in progress while each child is scanned (the ordinary nested traversal of
+# the swoop kernels); every fiber must keep its *own* scan position.
+
+def nested_walk(f, r, prefix, desc, dims, kids_of, found, tag):
+    fmt = desc[r]
+    leaf = r == len(desc) - 1
+    limit = (dims[r] if fmt != "C" else len(f.coords)) + 1
+    kids = kids_of[id(f)]
+    f.setupSlice(0)
+    seen = 0
+    while True:
+        h = f.nextInSlice()
+        if h is None:
+            break
+        seen += 1
+        if seen > limit:
+            raise Violation("nested-scan", f"{tag}: interleaved walk: fiber at {prefix} (rank {r}, {fmt}) yields more "
+                            f"than {limit - 1} handles (its scan position is disturbed by the scans of other fibers)")
+        c = f.handleToCoord(h)
+        p = f.handleToPayload(h)
+        if leaf:
+            v = f.payloadToValue(p)
+            if fmt == "U" and type(v) is int and v == 0:
+                continue
+            found.append((prefix + (c,), v))
+        else:
+            if fmt == "C" and desc[r + 1] == "U":
+                if seen > len(kids):
+                    raise Violation("nested-scan", f"{tag}: interleaved walk: fiber at {prefix} yields handle #{seen}, "
+                                    f"it has {len(kids)} children")
+                child = kids[seen - 1]           # position arithmetic: no payload list
+            else:
+                pl = f.getPayloads()
+                if type(p) is not int or not 0 <= p < len(pl):
+                    raise Violation("nested-scan", f"{tag}: interleaved walk: fiber at {prefix}: payload handle {p!r} "
+                                    f"of coordinate {c} selects no child")
+                child = pl[p]
+            nested_walk(child, r + 1, prefix + (c,), desc, dims, kids_of, found, tag)
+
+
+def check_nested(ot, desc, dims, kids_of, cont, tag):
+    found = []
+    try:
+        with step_budget(NESTED_BUDGET):
+            nested_walk(ot[1][0], 0, (), desc, dims, kids_of, found, tag)
+    except StepBudgetExceeded:
+        raise Violation("hang", f"{tag}: interleaved walk of the encoded tensor through the handle interface executed "
+                        f"more than {NESTED_BUDGET} codec lines (non-terminating scan)")
+    got = dict(found)
+    if len(got) != len(found) or got != cont or any(not same(got[q], cont[q]) for q in cont):
+        raise Violation("nested-scan", f"{tag}: interleaved walk (parent scan in progress while children are scanned) "
+                        f"yields {sorted(found)}, tensor content is {sorted(cont.items())}")
+
+
+# ---------------------------------------------------------------------------
 # one (tensor, descriptor, shape) triple
 
-def check_one(rank_ids, nest, natural, cont, desc, imposed, recorder):
-    tag = f"descriptor {''.join(desc)} shape={imposed} nest={nest}"
-    t, output, ot = encode(rank_ids, nest, desc, imposed)
+def check_one(rank_ids, nest, natural, cont, desc, imposed, recorder, touch=()):
+    tag = f"descriptor {''.join(desc)} shape={imposed} nest={nest}" + (f" touched={[tc['p'] for tc in touch]}" if touch else "")
+    t, output, ot = encode(rank_ids, nest, desc, imposed, touch)
     if list(t.getShape()) != list(natural):
         raise Violation("setup", f"fromUncompressed shape {t.getShape()} != nest shape {natural}")
     dims = list(imposed) if imposed is not None else list(natural)
@@ -505,13 +574,17 @@ def check_one(rank_ids, nest, natural, cont, desc, imposed, recorder):
     if ot[0][0].getPayloads() != [ot[1][0]] or ot[0][0].getPayloads()[0] is not ot[1][0]:
         raise Violation("fibers", f"{tag}: root handle does not hold the rank-0 fiber")
     nxt = [0] * (len(desc) + 1)
+    kids_of = {}
     for r in range(len(desc)):
         for i, rec in enumerate(dec.fibers[r]):
             f = ot[r + 1][i]
             kids = ot[r + 2][nxt[r + 1]:nxt[r + 1] + rec["nchildren"]] if not rec["leaf"] else []
             nxt[r + 1] += rec["nchildren"]
+            kids_of[id(f)] = kids
             where = f"{tag}: rank {r} fiber #{i} at {rec['prefix']}"
             check_fiber(f, rec, kids, dims, desc, where, pick_bases(dims[r], rec["coords"]), recorder)
+    # every fiber has its stub cache now: walk the whole tensor with interleaved scans
+    check_nested(ot, desc, dims, kids_of, cont, tag)
 
 
 def check(case, rec):
@@ -525,10 +598,15 @@ def check(case, rec):
     if model.nest_shape(nest) != list(dims) or model.nest_content(nest) != cont:
         raise RuntimeError("harness: nest construction")
     imposed = [n + g for n, g in zip(dims, grow)]
+    touch = case.get("touch", [])
+    for tc in touch:
+        q = tuple(tc["p"])
+        if not 1 <= len(q) <= d or any(not 0 <= c < n for c, n in zip(q, dims)) or (len(q) == d and q in cont):
+            raise RuntimeError("harness: touch point outside the zero positions")
     with contextlib.redirect_stdout(io.StringIO()):
         for desc in itertools.product(FMTS, repeat=d):
             for shp in (None, imposed):
-                check_one(rank_ids, nest, dims, cont, desc, shp, rec)
+                check_one(rank_ids, nest, dims, cont, desc, shp, rec, touch)
     # classification
     total = 1
     for n in dims:
@@ -543,6 +621,12 @@ def check(case, rec):
     rec.cls("imposed>natural", any(grow))
     rec.cls("mask>32bits", any(n > BITS_PER_WORD for n in imposed))
     rec.cls("float-leaf", any(isinstance(v, float) for v in flat))
+    prefixes = {q[:k] for q in cont for k in range(1, d)}
+    rec.cls("explicit-zero-leaf", any(len(tc["p"]) == d for tc in touch))
+    rec.cls("explicit-empty-subfiber", any(len(tc["p"]) < d and tuple(tc["p"]) not in prefixes for tc in touch))
+    rec.cls("all-explicit-zero-subfiber", any(len(tc["p"]) == d and d > 1 and tuple(tc["p"][:-1]) not in prefixes
+                                              for tc in touch))
+    rec.cls("canonical", not touch)
     rec.nontrivial(d >= 2 and empty)
 
 
@@ -596,7 +680,23 @@ def cases(draw):
             vol *= (n + (g if i == r else grow[i]))
         if vol <= 1200:
             grow[r] = g
-    return {"rank_ids": draw(st.sampled_from(RANK_SETS[d])), "dims": dims, "flat": flat, "grow": grow}
+    # non-canonical storage: explicit zeros / explicitly empty sub-fibers at zero positions
+    touch = []
+    if draw(st.sampled_from([True, True, False])):
+        zero_pts = [q for q, v in zip(itertools.product(*[range(n) for n in dims]), flat) if v == 0]
+        for _ in range(draw(st.integers(1, 4))):
+            if not zero_pts:
+                break
+            q = list(zero_pts[draw(st.integers(0, len(zero_pts) - 1))])
+            k = draw(st.integers(1, d)) if d > 1 else d
+            w = draw(st.booleans())
+            if k < d and any(tuple(q[:k]) == z[:k] for z in content_of(dims, flat)):
+                k = d                      # prefix already stored: make it an explicit zero leaf instead
+            tc = {"p": q[:k], "w": bool(w and k == d)}
+            if tc not in touch:
+                touch.append(tc)
+    return {"rank_ids": draw(st.sampled_from(RANK_SETS[d])), "dims": dims, "flat": flat, "grow": grow,
+            "touch": touch}
 
 
 def enumerate_small(tier):
@@ -613,6 +713,18 @@ def enumerate_small(tier):
         for mask in range(2 ** total):
             flat = [(i + 1) if (mask >> i) & 1 else 0 for i in range(total)]
             yield {"rank_ids": RANK_SETS[len(dims)][0], "dims": dims, "flat": flat, "grow": [1] * len(dims)}
+            if total <= 4 and mask != 2 ** total - 1:
+                # the same pattern stored non-canonically: every zero leaf explicit / every absent prefix
+                # an explicitly empty sub-fiber
+                pts = list(itertools.product(*[range(n) for n in dims]))
+                zero = [list(q) for q, v in zip(pts, flat) if v == 0]
+                yield {"rank_ids": RANK_SETS[len(dims)][0], "dims": dims, "flat": flat, "grow": [1] * len(dims),
+                       "touch": [{"p": q, "w": bool(i % 2)} for i, q in enumerate(zero)]}
+                stored = {q[:k] for q, v in zip(pts, flat) if v != 0 for k in range(1, len(dims))}
+                absent = sorted({q[:k] for q in pts for k in range(1, len(dims))} - stored)
+                if absent:
+                    yield {"rank_ids": RANK_SETS[len(dims)][0], "dims": dims, "flat": flat,
+                           "grow": [1] * len(dims), "touch": [{"p": list(q), "w": False} for q in absent]}
 
 
 PARTS = [
